@@ -86,10 +86,10 @@ theorem verdict_order_independent (w1 w2 : World) (hwf : w1.wf = w2.wf) (hp : w1
 theorem merge_order_independent (a b : Ctx.Ctx) (k0 : String) (rest : List String)
     (hk : k0 ≠ "__task_execution") (ha : Hist.ShapeOK k0 rest a) (hb : Hist.ShapeOK k0 rest b)
     (hcons : ∀ va vb, Hist.getPath a.data k0 rest = some va → Hist.getPath b.data k0 rest = some vb →
-      Ctx.ver a.vers (Hist.keyOf k0 rest) = Ctx.ver b.vers (Hist.keyOf k0 rest) → va = vb) :
+      Ctx.ver a.vers (Hist.keyOf (Ctx.esc k0) rest) = Ctx.ver b.vers (Hist.keyOf (Ctx.esc k0) rest) → va = vb) :
     Hist.getPath (Ctx.mergeByVersion a b).data k0 rest = Hist.getPath (Ctx.mergeByVersion b a).data k0 rest ∧
-    Ctx.ver (Ctx.mergeByVersion a b).vers (Hist.keyOf k0 rest) =
-      Ctx.ver (Ctx.mergeByVersion b a).vers (Hist.keyOf k0 rest) :=
+    Ctx.ver (Ctx.mergeByVersion a b).vers (Hist.keyOf (Ctx.esc k0) rest) =
+      Ctx.ver (Ctx.mergeByVersion b a).vers (Hist.keyOf (Ctx.esc k0) rest) :=
   Mistral.Props.C05.merge_order_independent_partial a b k0 rest hk ha hb hcons
 
 /-- ... nor on how a join with three or more inbound tasks groups them (no tie hypothesis) -/
